@@ -7,3 +7,5 @@ INVARIANT C10_Distance
 INVARIANT C10_Nothing
 INVARIANT C10_NoPanic
 INVARIANT C10_Probed
+INVARIANT C10_Flow
+INVARIANT C10_Regrow
